@@ -5,6 +5,7 @@ package main
 import (
 	"fmt"
 	"go/types"
+	"strings"
 )
 
 type pathStep struct {
@@ -119,6 +120,16 @@ func (g *Gen) globalLoc(name string, t types.Type) *Loc {
 	return &Loc{kind: "global", arr: "G:" + name, es: g.sortOf(t), ref: "0", T: t}
 }
 
+// ghostLoc: a ghost global. Ghost variables of map type are mathematical total maps (SMT arrays
+// stored by value), not references.
+func (g *Gen) ghostLoc(pkgPath, name string, t types.Type) *Loc {
+	es := g.sortOf(t)
+	if mt, ok := t.Underlying().(*types.Map); ok {
+		es = fmt.Sprintf("(Array %s %s)", g.sortOf(mt.Key()), g.sortOf(mt.Elem()))
+	}
+	return &Loc{kind: "global", arr: "G:ghost:" + pkgPath + "." + name, es: es, ref: "0", T: t}
+}
+
 // subLoc: field i of the struct stored at l.
 func (g *Gen) subLoc(l *Loc, structT types.Type, i int) *Loc {
 	u := structT.Underlying().(*types.Struct)
@@ -141,6 +152,9 @@ func (g *Gen) load(st *State, l *Loc) T {
 	v := g.rootRead(st, l)
 	for _, p := range l.path {
 		v = app(g.structAcc(p.st, p.idx), v)
+	}
+	if len(l.path) == 0 && strings.HasPrefix(l.arr, "G:ghost:") {
+		return mk(v, l.es, l.T)
 	}
 	return mk(v, g.sortOf(l.T), l.T)
 }
@@ -237,6 +251,13 @@ func (g *Gen) mapLookup(st *State, m T, k string) (val T, has string) {
 	return mk(v, vs, mt.Elem()), h
 }
 
-func (g *Gen) mapCard(st *State, m string) string {
-	return sel(g.arr(st, "MapCard", "Int"), m)
+// cardArr: the cardinality array of a map type (per type: references of different types may be
+// numerically equal in this model).
+func cardArr(mt *types.Map) string {
+	return "MapC:" + typeKey(mt.Key()) + "->" + typeKey(mt.Elem())
+}
+
+func (g *Gen) mapCard(st *State, m T) string {
+	mt := m.GT.Underlying().(*types.Map)
+	return sel(g.arr(st, cardArr(mt), "Int"), m.S)
 }
